@@ -7,6 +7,20 @@ TRUST = ("trusted base: go/types + go/ssa (x/tools v0.50.0), goyacc v0.29.0's LA
          "interface calls that leave the module (Entry, plugins) are opaque")
 
 CHECKS = {
+    "C12": dict(
+        cat="other",
+        text=("Decides structural steps of uses/refine/augment expansion, not schema equivalence: no sibling-uniqueness error of the schema tree's add* methods is discarded at any call site; a node's defining tree has the constructor as its only writer, Clone keeps it, sets the using tree from its argument and re-homes every descendant, the namespace/module accessors consult the using tree first, and the module handed to Clone is chosen from the using side, never by looking at the grouping; inheritCommonProperties copies exactly when/if-feature/status and every node applyUsesToNode clones or applyAugment moves passes through it first; the refinable-statement and augmentable-target sets equal RFC 6020 7.12.2 / 7.15."),
+        ref="DESIGN.md §4 C12",
+        technique="error-discipline rule over call sites, who-writes sets, value-provenance and statement-order rules on the type-checked AST, switch case-set comparison with RFC 6020",
+        note="Not decided: equivalence with the inlined module. Known finding: NewModelSet drops addChoice's error. " + TRUST,
+    ),
+    "C15": dict(
+        cat="other",
+        text=("Decides that embedded XPath is always compiled and resolved in the right scope, structurally: the builder of every node kind that the substatement table (C09) allows to carry when / must calls BuildWhens / BuildMusts, the leafref builder reaches NewLeafrefMachine, and the error of every machine constructor called in compile/ reaches Compiler.error (auxiliary path-evaluation machines: saveWarning); in each prefix-mapping closure the receiver of YangPrefixToNamespace is the node whose text is compiled; GetModuleByPrefix reads only the defining tree, an unknown prefix is an error unless unknowns are skipped, and only the empty prefix takes the context-dependent namespace; in both lexers a mapping error becomes the lexer error and the ERR token."),
+        ref="DESIGN.md §4 C15",
+        technique="table-driven must-call rule (kinds from the C09 table), error-flow rule on constructor call sites, receiver-identity rule inside closures, field-read set of GetModuleByPrefix",
+        note="Not decided: semantic validity of expressions; the documented silent fallback from the extended must. " + TRUST,
+    ),
     "C11": dict(
         cat="other",
         text=("Decides the structural necessary conditions of total and deterministic compilation: every iteration over a Go map in compile/, parse/, schema/ and data/ is either order-insensitive by shape (map copies, collect-then-sort) or a reviewed site with the reason its order is unobservable, calls no order-sensitive phase and gains no new outer-slice append; the order-sensitive phases (grouping/augment expansion, deviations, module build) are called only inside loops over the topologically sorted module names, and those names are the sorter's output; the reference-following recursions (features, groupings, typedef chain) carry a path set that is tested, inserted before and removed after the descent, and the grouping check enumerates uses transitively as the expansion does; every explicit panic in the compiler carries an error and every phase compileInternal calls that can raise one defers Compiler.recover."),
